@@ -18,6 +18,8 @@ func respell(name string, style int) string {
 		return strings.ToUpper(name)
 	case 3:
 		return strings.ToLower(name)
+	case 6:
+		return strings.ToUpper(spell(name, 1))
 	case 4:
 		out := ""
 		for i := 0; i < len(name); i++ {
@@ -31,6 +33,14 @@ func respell(name string, style int) string {
 		return out
 	}
 	return name
+}
+
+// c17Plain: the spelling style of the non-list headers (the mixed style keeps them canonical).
+func c17Plain(style int) int {
+	if style == 5 {
+		return 0
+	}
+	return style
 }
 
 // canonName maps any spelling to the canonical lower-case long form.
@@ -78,8 +88,11 @@ func c17Build(start string, vias, routes, rrs []string, rest [][2]string, body s
 		for i, e := range list {
 			if i > 0 && join[i-1] {
 				text = text[:len(text)-2] + "," + e + "\r\n"
+			} else if style == 5 && name == "Via" {
+				// mixed: every Via line chooses its own spelling (canonical, compact, lower)
+				text += respell(name, []int{0, 1, 3, 6}[rt.Choice("line-spelling", 4)]) + ": " + e + "\r\n"
 			} else {
-				text += respell(name, style) + ": " + e + "\r\n"
+				text += respell(name, c17Plain(style)) + ": " + e + "\r\n"
 			}
 		}
 	}
@@ -87,13 +100,13 @@ func c17Build(start string, vias, routes, rrs []string, rest [][2]string, body s
 	emit("Route", routes, joinRoute)
 	emit("Record-Route", rrs, []bool{false, false, false})
 	for _, h := range rest {
-		n := respell(h[0], style)
+		n := respell(h[0], c17Plain(style))
 		if symCase != "" && h[0] == "Call-ID" {
 			n = symCase
 		}
 		text += n + ": " + h[1] + "\r\n"
 	}
-	return text + respell("Content-Length", style) + ": " + itoa(len(body)) + "\r\n\r\n" + body
+	return text + respell("Content-Length", c17Plain(style)) + ": " + itoa(len(body)) + "\r\n\r\n" + body
 }
 
 func c17Run(text string, path int) (c17Out, bool) {
@@ -179,7 +192,7 @@ func VC17_Twins() {
 	body := rt.Str("body", "any", 0, L)
 	none := []bool{false, false, false}
 	base := c17Build(start, vias, routes, rrs, rest, body, 0, none, none, "")
-	style := rt.Choice("style", 4) + 1
+	style := rt.Choice("style", 6) + 1 // 5: mixed spellings of the Via lines inside one message, 6: upper-case compact forms
 	joinV := []bool{rt.Bool("join-via"), rt.Bool("join-via"), false}
 	joinR := []bool{false, false, false}
 	if path == 1 {
